@@ -84,13 +84,19 @@ class Gen:
                 nodes[i].parent = nodes[(i + 1) % n]
         else:
             nodes[0].parent = nodes[0]
-        return nodes[-1] if shape != "shared-parent" else Holder(nodes)
+        if shape == "shared-parent":
+            return Holder(nodes)
+        return self.rng.choice(nodes) if shape == "cycle" else nodes[0]          # a cycle is entered anywhere
 
     def atom(self):
         return Atom(self.rng.choice(list(Element)), self.rng.randrange(3), self.f(), _dtm.datetime(2020, 1, 1 + self.rng.randrange(5)))
 
     def entity(self):
-        return self.pick("entity", lambda: Entity(self.rng.choice(["e1", "e2", ""])))
+        def mk():
+            if self.rng.random() < 0.4:
+                return DerivedEntity(self.rng.choice(["d1", "d2"]), description=self.rng.choice(["x", "y"]))     # below an alternatively mapped parent
+            return Entity(self.rng.choice(["e1", "e2", ""]))
+        return self.pick("entity", mk)
 
     def assoc(self):
         return EntityAssociation(self.entity(), self.rng.choice([None, ["x"], ["x", "y"], []]))
@@ -104,13 +110,18 @@ class Gen:
         if self.rng.random() < 0.7:
             b = Backreference({1: 1, 2: 2} if self.rng.random() < 0.5 else {}, r)
             r.backreference = b
+            if self.rng.random() < 0.4:
+                return b                            # the cycle is entered at the alternatively mapped object
         return r
 
     def container(self):
         items = [ItemWithBackreference(self.rng.randrange(4)) for _ in range(self.rng.randrange(0, 4))]
         if items and self.rng.random() < 0.3:
             items.append(items[0])          # the same item twice in the collection
-        return ContainerGeneration(items)
+        c = ContainerGeneration(items)
+        if items and self.rng.random() < 0.5:
+            return self.rng.choice(items)           # the cycle through the collection is entered at one of its elements
+        return c
 
     def shapes(self):
         def shape():
